@@ -11,14 +11,16 @@ LEVEL = "proof"
 META = {
     "level": "proof",
     "technique": "Coq proof about a Gallina port of EarClip's linked-list code with all geometry as oracles + extracted exact checker on outputs + decision-replay correspondence",
-    "text": "Coq theorems, for every oracle (= every outcome of the floating-point predicates): Initialize builds closed rings satisfying all invariants (no hypothesis); "
-            "every operation of the ported EarClip (Link, ClipEar with the topological-degenerate filter, recursive ClipIfDegenerate, Loop, FindStart, CutKeyhole/JoinPolygons, "
-            "TriangulatePoly with the empty-queue fallback) preserves: boundary(emitted triangles) + edges(live lists) = input contour edges, triangles over input indices, "
-            "#ClipEar + #live = V + 2*joins; hence chain identity and V-2+2h-2(o-1) whenever the two executable side conditions nbad = 0 / rings_closed hold at the end "
-            "(evaluated on every replayed run; PARTIAL: not proved for every oracle). TriangulateConvex satisfies the same identities (contours of 3..200 vertices). "
-            "The area identity is a corollary of the chain identity. The extracted, proved-sound (and for the chain test complete) checker tri_check decides on every output of "
-            "/repo's TriangulateIdx (11 generated polygon families + test/polygons corpus; allowConvex on/off, fresh vs reused PolygonTriangulator): index validity, chain identity, "
-            "exact area sum, count, CCW within 2*eps exactly. The extracted model replays the implementation's traced decisions and must reproduce its triangle list and final polygon_ links.",
+    "text": "Coq theorems, for every oracle (= every outcome of the floating-point predicates) and every polygon set without empty contours: the ported EarClip "
+            "(Link, ClipEar with the topological-degenerate filter, recursive ClipIfDegenerate, Loop, FindStart, CutKeyhole/JoinPolygons, TriangulatePoly with the empty-queue fallback) "
+            "TERMINATES without undefined behaviour once fuel >= 2(V+2*contours)+4 (earclip_terminates) and its triangles satisfy the chain identity "
+            "(every input edge once in its direction, every other edge cancelled by its reverse), use only input indices, #triangles+#filtered = #ClipEar = V+2*joins-#live "
+            "(earclip_chain, earclip_total_correctness): proved with a ghost ring decomposition (labels preserved along left/right, one circular list per label, Loop visits exactly its ring, "
+            "holes/outers/simples in pairwise different rings until JoinPolygons merges two), so the former run-time side conditions nbad = 0 / rings_closed are now theorems. "
+            "TriangulateConvex satisfies the same identities for every contour length (zig-zag induction). The area identity is a corollary of the chain identity. "
+            "The extracted, proved-sound (and for the chain test complete) checker tri_check decides on every output of /repo's TriangulateIdx (11 generated polygon families + test/polygons corpus; "
+            "allowConvex on/off, fresh vs reused PolygonTriangulator): index validity, chain identity, exact area sum, count, CCW within 2*eps exactly. "
+            "The extracted model replays the implementation's traced decisions and must reproduce its triangle list and final polygon_ links.",
     "note": "Not proved: that each triangle is CCW within epsilon (floating ear costs) - decided per output by the exact checker. Trusted: Coq kernel, extraction, "
             "the harness, the add-only trace hook hooks/C10.patch (applied to a scratch copy of polygon.cpp when not committed), exact scaling of doubles to integers in Python.",
 }
@@ -481,6 +483,8 @@ def parse_harness(out):
             res[t[1]][int(t[2])]["ev"] = t[3:]
         elif t[0] == "PG":
             res[t[1]][int(t[2])]["pg"] = t[3:]
+        elif t[0] == "HP":
+            res[t[1]][1]["hp"] = t[2:]
     return res
 
 
@@ -488,8 +492,8 @@ def run(cx):
     cx.assumptions += [
         "geometric decisions of EarClip (degenerate test, hole/outer classification, keyhole connector, ear order, queue membership) are oracles: arbitrary functions of the whole state; theorems hold for all of them",
         "not proved: every triangle is CCW within epsilon for epsilon-valid input (depends on floating ear costs) - decided per output by the proved-sound exact checker tri_check",
-        "earclip_contract_partial keeps two executable hypotheses: nbad = 0 (JoinPolygons joins two different live rings; no ring of <= 2 records is clipped) and rings_closed (every remaining ring has <= 2 records); both are evaluated on every replayed run (model state = implementation's final polygon_), not proved; fuel sufficiency of Loop/ClipIfDegenerate is not proved (replay uses fuel 2n+8 and must not run out)",
-        "convex_strip_chain is proved for contours of 3..200 vertices (bound in the statement)",
+        "the ghost conditions nbad = 0 / rings_closed are proved for every oracle (earclip_chain); the check still evaluates them on every replayed run as a cross-check of the model against the implementation's final polygon_",
+        "earclip_count_partial: the closed formula V-2+2h-2(o-1) still takes the number of remaining rings (nlive = 2*o) as a hypothesis; the unconditional statement proved is #triangles + #filtered = V + 2*joins - #live",
         "v->ear iterator validity is modelled as queue membership; hash pairing of HalfedgeTriangulation is checked on outputs (reciprocal, swapped endpoints), not modelled",
         "doubles are scaled to integers exactly (common power of two) by checks/C10.py; tolerance (2*eps)^2 rounded up",
     ]
@@ -579,12 +583,15 @@ def run(cx):
                     continue
                 dl.append("RPL %s/%d %d %s %s" % (c["id"], v, len(c["polys"]), idxs, " ".join(ev)))
         dl.append("CVX %s %d %s" % (c["id"], len(c["polys"]), idxs))
+        if r[1].get("hp") is not None and nv <= REPLAY_MAXV:
+            dl.append("HPR %s %d %s %d %s" % (c["id"], len(c["polys"]), idxs, len(r[1]["tris"]),
+                                               " ".join("%d %d %d" % t for t in r[1]["tris"])))
     # the extracted list functions are not tail recursive: give the driver an unlimited stack (65k-vertex corpus polygons)
     rc2, dout, derr = vp.sh2(["bash", "-c", "ulimit -s unlimited 2>/dev/null || true; exec '%s'" % drv],
                              input="\n".join(dl) + "\n", timeout=cx.pick(170, 1700))
     if rc2 != 0:
         cx.broke("corr:C10/model-driver", "extracted checker/model driver exited %d: %s" % (rc2, derr[-400:]))
-    V, MT, MG, MS, MC = {}, {}, {}, {}, {}
+    V, MT, MG, MS, MC, MH = {}, {}, {}, {}, {}, {}
     for l in dout.splitlines():
         t = l.split()
         if t[0] == "V":
@@ -597,6 +604,8 @@ def run(cx):
             MS[t[1]] = list(map(int, t[2:]))
         elif t[0] == "MC":
             MC[t[1]] = t[2:]
+        elif t[0] == "MH":
+            MH[t[1]] = t[2:]
 
     # -- judge
     dist, nontriv, seen_cases = {}, 0, set()
@@ -693,6 +702,13 @@ def run(cx):
                 stats["convex_model_ok"] += 1
             elif not rejected:
                 broke("corr:C10/triangulate_convex#%s" % cid, "fast path output differs from the TriangulateConvex model")
+        # hash pairing of HalfedgeTriangulation vs the AddHalfedge model (theorem pairing_reciprocal)
+        if cid in MH and r[1].get("hp") is not None:
+            stats["pairing_compared"] = stats.get("pairing_compared", 0) + 1
+            if MH[cid] == r[1]["hp"]:
+                stats["pairing_model_ok"] = stats.get("pairing_model_ok", 0) + 1
+            elif not rejected:
+                broke("corr:C10/add_halfedge_pairing#%s" % cid, "pairedHalfedge array differs from the ported AddHalfedge model")
         # replay correspondence
         for v in (1, 2):
             key = "%s/%d" % (cid, v)
